@@ -186,7 +186,7 @@ func (fx *FnExec) execBlock(fr *frame, b *ssa.BasicBlock, st *State, deliver fun
 			for i, r := range x.Results {
 				vals = append(vals, fx.coerce(fx.val(fr, r), fr.fn.Signature.Results().At(i).Type()))
 			}
-			fr.results = append(fr.results, retInfo{st: st, vals: vals})
+			fr.results = append(fr.results, retInfo{st: st, vals: vals, pos: x.Pos()})
 			return
 		case *ssa.Panic:
 			fx.oblige(fr, st, "panic", x.Pos(), c.False(), "explicit panic is unreachable")
@@ -211,6 +211,11 @@ func (fx *FnExec) loopScopePos(li *loopInfo) token.Pos {
 
 func (fx *FnExec) envAt(fr *frame, st *State, pos token.Pos) *CEnv {
 	e := &CEnv{fx: fx, fr: fr, st: st, old: fr.entry, vars: map[string]CVal{}, scope: pos}
+	for _, l := range fr.loops {
+		if fx.loopScopePos(l) == pos {
+			e.li = l
+		}
+	}
 	for k, v := range fr.cvars {
 		e.vars[k] = v
 	}
@@ -268,6 +273,15 @@ func (fx *FnExec) enterLoop(fr *frame, li *loopInfo, lc *LoopContract, st *State
 				if strings.HasPrefix(key, p) {
 					delete(st.heap, key)
 				}
+			}
+		}
+	}
+	// automatic invariant of range-over-slice loops: the hidden counter starts at -1 and only
+	// moves up by one while below a length (< 2^46), so it never drops below -1
+	for a := range li.modAlloc {
+		if a.Comment == "rangeindex" {
+			if t, ok := st.locals[a].(*Term); ok && t.Sort == BV(64) {
+				st.pc = c.And(st.pc, c.BVCmp("bvsle", c.BVInt(-1, 64), t), c.BVCmp("bvslt", t, c.BVConst(mask(maxLenBits), 64)))
 			}
 		}
 	}
@@ -411,6 +425,7 @@ func (fx *FnExec) applyContract(fr *frame, st *State, fc *FuncContract, callee *
 	}
 	old := st.clone()
 	if !fc.Pure {
+		fx.frameWrite(fr, st, nil, pos, "call "+key+" (not pure)")
 		if recv != nil {
 			fx.escape(fr, st, recv)
 		}
@@ -711,6 +726,7 @@ func (eng *Engine) VerifyFunc(fn *ssa.Function, opts ExecOpts) (rep *FuncReport)
 		opts.AllocBound = fc.AllocBnd
 	}
 	fx := eng.newExec(opts)
+	fx.pureMode = fc != nil && fc.Pure && !fc.Assumed
 	rep = &FuncReport{Key: key, HasContract: fc != nil, fx: fx}
 	defer func() {
 		if r := recover(); r != nil {
@@ -754,6 +770,7 @@ func (eng *Engine) VerifyFunc(fn *ssa.Function, opts ExecOpts) (rep *FuncReport)
 	var args []Val
 	for i, p := range fn.Params {
 		v := fx.freshVal(p.Type(), "in."+p.Name())
+		fx.bornAtEntry(v)
 		fr.regs[p] = v
 		fx.addInputs("in."+p.Name(), v)
 		if i == 0 && fn.Signature.Recv() != nil {
@@ -788,6 +805,7 @@ func (eng *Engine) VerifyFunc(fn *ssa.Function, opts ExecOpts) (rep *FuncReport)
 			fr.cvars[l.Name] = env0.Eval(l.Expr)
 		}
 		env := &CEnv{fx: fx, fr: fr, st: st, vars: fr.cvars}
+		fx.assumeAxioms(fr, st, fc.Props)
 		for _, rq := range fc.Requires {
 			g := fx.evalClause(fr, env, rq, "requires")
 			st.pc = c.And(st.pc, g)
@@ -832,6 +850,12 @@ func (eng *Engine) VerifyFunc(fn *ssa.Function, opts ExecOpts) (rep *FuncReport)
 		}
 		env := &CEnv{fx: fx, fr: fr, st: final, old: fr.entry, vars: fr.cvars}
 		for k, en := range fc.Ensures {
+			if hasExists(en.Expr) {
+				// existential postcondition: checked at each return site, where the live integer
+				// locals (typically the loop index) are tried as witnesses
+				fx.ensuresPerSite(fr, fc, fn, k, en)
+				continue
+			}
 			g := fx.evalClause(fr, env, en, "ensures")
 			s2 := final.clone()
 			fx.obligeNamed(fr, s2, fmt.Sprintf("ensures/%d", k+1), "ensures", fn.Pos(), g, "postcondition: "+en.Src)
@@ -866,6 +890,197 @@ func (fx *FnExec) addInputs(name string, v Val) {
 	case StructV:
 		for i, f := range x.F {
 			fx.addInputs(fmt.Sprintf("%s.%d", name, i), f)
+		}
+	}
+}
+
+// assumeAxioms adds every axiom tagged with one of props as an assumption
+// (axioms are listed in the evidence as unchecked assumptions).
+func (fx *FnExec) assumeAxioms(fr *frame, st *State, props []string) {
+	for _, ax := range fx.eng.db.Axioms {
+		if ax.Lemma {
+			continue
+		}
+		ok := false
+		for _, p := range ax.Props {
+			for _, q := range props {
+				if p == q {
+					ok = true
+				}
+			}
+		}
+		if !ok {
+			continue
+		}
+		env := &CEnv{fx: fx, fr: fr, st: st, vars: map[string]CVal{}}
+		var t *Term
+		func() {
+			defer func() {
+				if r := recover(); r != nil {
+					if ce, ok := r.(cerr); ok {
+						panic(oosError{"axiom " + ax.Name + ": " + ce.msg})
+					}
+					panic(r)
+				}
+			}()
+			t = env.Bool(ax.Expr)
+		}()
+		fx.assumeGlobal(t)
+		fx.note("axiom " + ax.Name + ": " + exprString(ax.Expr))
+	}
+}
+
+// ---- frame of pure functions: every heap write must target an object allocated by this call
+
+func (fx *FnExec) isFreshRef(r *Term) bool {
+	if r == nil {
+		return false
+	}
+	if r.Op == "ite" {
+		return fx.isFreshRef(r.Args[1]) && fx.isFreshRef(r.Args[2])
+	}
+	r = fx.rootRef(r)
+	return r.Op == "const" && strings.HasPrefix(r.Name, "new!")
+}
+
+func (fx *FnExec) frameWrite(fr *frame, st *State, ref *Term, pos token.Pos, what string) {
+	if !fx.pureMode || fr == nil {
+		return
+	}
+	if ref != nil && fx.isFreshRef(ref) {
+		return
+	}
+	fx.oblige(fr, st, "frame", pos, fx.c.False(), "pure function must not "+what)
+}
+
+func hasExists(x *CExpr) bool {
+	if x == nil {
+		return false
+	}
+	if x.Op == "exists" {
+		return true
+	}
+	for _, a := range x.Args {
+		if hasExists(a) {
+			return true
+		}
+	}
+	return false
+}
+
+// substWitness evaluates clause with the first `exists v T :: body` replaced by body[v := cand].
+func withWitness(x *CExpr, cand string) (*CExpr, bool) {
+	if x == nil {
+		return nil, false
+	}
+	if x.Op == "exists" && len(x.Vars) == 1 {
+		return &CExpr{Op: "let", Name: x.Vars[0].Name, Args: []*CExpr{{Op: "ident", Name: cand}, x.Args[0]}}, true
+	}
+	n := *x
+	n.Src = ""
+	n.Args = append([]*CExpr{}, x.Args...)
+	for i, a := range x.Args {
+		if r, ok := withWitness(a, cand); ok {
+			n.Args[i] = r
+			return &n, true
+		}
+	}
+	return x, false
+}
+
+func (fx *FnExec) ensuresPerSite(fr *frame, fc *FuncContract, fn *ssa.Function, k int, en Clause) {
+	nres := fn.Signature.Results().Len()
+	for j, r := range fr.results {
+		vars := map[string]CVal{}
+		for n, v := range fr.cvars {
+			vars[n] = v
+		}
+		if nres > 0 {
+			var res Val
+			if nres == 1 {
+				res = r.vals[0]
+			} else {
+				res = TupleV(r.vals)
+			}
+			fx.bindResults(fc, fn.Signature, res, vars)
+		}
+		env := &CEnv{fx: fx, fr: fr, st: r.st, old: fr.entry, vars: vars}
+		g := fx.evalClause(fr, env, en, "ensures")
+		name := fmt.Sprintf("ensures/%d@ret%d", k+1, j+1)
+		o := &Obligation{Name: fr.prefix + "/" + name, Kind: "ensures", Pos: fx.posOf(fr, r.pos), Desc: "postcondition at this return: " + en.Src, PC: r.st.pc, Goal: g,
+			Assume: fx.assumes[:len(fx.assumes):len(fx.assumes)], Values: fx.inputs}
+		// witness candidates: integer locals live at this return
+		var cands []string
+		seen := map[string]bool{}
+		for a := range r.st.locals {
+			t := a.Type().(*types.Pointer).Elem()
+			if w, _, ok := intWidth(t); ok && w == 64 && a.Comment != "" && !seen[a.Comment] && a.Parent() == fn {
+				seen[a.Comment] = true
+				cands = append(cands, a.Comment)
+			}
+		}
+		sort.Strings(cands)
+		for _, cand := range cands {
+			wx, ok := withWitness(en.Expr, "wit__")
+			if !ok {
+				break
+			}
+			var cv CVal
+			found := false
+			for a, v := range r.st.locals {
+				if a.Comment == cand && a.Parent() == fn {
+					t := a.Type().(*types.Pointer).Elem()
+					cv = CVal{V: v, T: t}
+					_, cv.Signed, _ = intWidth(t)
+					found = true
+				}
+			}
+			if !found {
+				continue
+			}
+			e2 := &CEnv{fx: fx, fr: fr, st: r.st, old: fr.entry, vars: map[string]CVal{}}
+			for n, v := range vars {
+				e2.vars[n] = v
+			}
+			e2.vars["wit__"] = cv
+			func() {
+				defer func() {
+					if rr := recover(); rr != nil {
+						if _, ok := rr.(cerr); !ok {
+							panic(rr)
+						}
+					}
+				}()
+				o.Alts = append(o.Alts, e2.Bool(wx))
+			}()
+		}
+		fx.obls = append(fx.obls, o)
+	}
+}
+
+// bornAtEntry: references passed in by the caller denote objects allocated before this call.
+func (fx *FnExec) bornAtEntry(v Val) {
+	c := fx.c
+	zero := func(r *Term) {
+		fx.assumeGlobal(c.Eq(c.App("born", BV(32), c.App("rootOf", RefSort, r)), c.BVInt(0, 32)))
+		fx.assumeGlobal(c.Implies(c.Not(c.App("interior", BoolSort, r)), c.Eq(c.App("rootOf", RefSort, r), r)))
+	}
+	switch x := v.(type) {
+	case PtrV:
+		if x.Ref != nil {
+			zero(x.Ref)
+		}
+	case SliceV:
+		zero(x.Ref)
+	case IfaceV:
+		zero(x.Ref)
+	case StructV:
+		for _, f := range x.F {
+			fx.bornAtEntry(f)
+		}
+	case *Term:
+		if x.Sort == RefSort {
+			zero(x)
 		}
 	}
 }
